@@ -170,6 +170,7 @@ def write_replay(prop_id, trace, verdict):
     rec = dict(trace)
     rec["verdict"] = jsonable(verdict.brief())
     rec["hashseed"] = os.environ.get("PYTHONHASHSEED", "0")
+    rec["import_tz"] = os.environ.get("HEXSIM_IMPORT_TZ")
     with open(path, "w") as fh:
         json.dump(rec, fh, indent=1)
     return path
@@ -344,8 +345,12 @@ def _hash_seed_leg(prop_id, tier, base_seed, budget_s, jobs):
     from .util import derive_seed
 
     h = 1 + derive_seed(base_seed, "hashseed") % 4_000_000_000
+    # ... and whose interpreter starts, and imports the library, under another time zone (whatever the library
+    # evaluates at import time has then seen that zone; the run itself proceeds under UTC as always)
+    zones = ("Asia/Kolkata", "America/New_York", "Australia/Lord_Howe", "Asia/Kathmandu", "Pacific/Chatham")
+    import_tz = zones[derive_seed(base_seed, "import-tz") % len(zones)]
     env = dict(os.environ)
-    env.update({"HEXSIM_HASHSEED": str(h), "HEXSIM_LEG": "hashseed",
+    env.update({"HEXSIM_HASHSEED": str(h), "HEXSIM_LEG": "hashseed", "HEXSIM_IMPORT_TZ": import_tz,
                 "VERIF_BUDGET_S": str(max(4.0, budget_s * 0.15)), "VERIF_SEED": str(base_seed),
                 "VERIF_JOBS": str(jobs)})
     env.pop("PYTHONHASHSEED", None)
@@ -360,12 +365,12 @@ def _hash_seed_leg(prop_id, tier, base_seed, budget_s, jobs):
     for ln in out.splitlines():
         if ln.startswith("LEG-SUMMARY "):
             summary = json.loads(ln[len("LEG-SUMMARY "):])
-    leg = {"hashseed": h, "runs": summary.get("runs", 0), "exit": p.returncode}
+    leg = {"hashseed": h, "import_tz": import_tz, "runs": summary.get("runs", 0), "exit": p.returncode}
     if p.returncode == EXIT_VIOLATION:
         vio = None
         for ln in out.splitlines():
             if ln.startswith(("violation:", "VIOLATION ")):
-                print(ln + ("" if ln.startswith("VIOLATION") else f" [under PYTHONHASHSEED={h}]"), flush=True)
+                print(ln + ("" if ln.startswith("VIOLATION") else f" [under PYTHONHASHSEED={h}, library imported under TZ={import_tz}]"), flush=True)
             if ln.startswith("VIOLATION ") and "replay=" in ln:
                 vio = {"signature": "see replay", "replay": ln.split("replay=", 1)[1].strip(), "hashseed": h}
         return EXIT_VIOLATION, vio, leg
@@ -514,6 +519,7 @@ def _sequence_violation(prop, base_seed, rec, known, agg):
         with open(path, "w") as fh:
             json.dump({"format": 1, "property": prop.ID, "seed": traces[-1].get("seed", 0), "sequence": traces,
                        "hashseed": os.environ.get("PYTHONHASHSEED", "0"),
+                       "import_tz": os.environ.get("HEXSIM_IMPORT_TZ"),
                        "verdict": {"status": "violation", "signature": rec["sig"], "op_index": rec.get("op_index", -1)}},
                       fh, indent=1)
         return path
